@@ -56,9 +56,8 @@ class ContentProtection(Descriptor):
             atoms[0].atom_type, 'pssh',
             template=r'Atom type should be PSSH but got "{0}"')
         pssh = atoms[0]
-        if not self.elt.check_true(
-                PlayReady.is_supported_scheme_id(self.schemeIdUri),
-                msg=f'Unsupported PlayReady scheme id "{self.schemeIdUri}"'):
+        if not PlayReady.is_supported_scheme_id(self.schemeIdUri):
+            # the pssh box of another DRM system (ClearKey, Marlin ...)
             return
         self.elt.check_is_instance(
             pssh.system_id, Binary,
